@@ -14,7 +14,7 @@ from pyvc.interp import PathEnd, Unsupported, PyExc, _Break, _Continue, _Return
 from pyvc.loops import pos_add
 from pyvc.models import SRange
 from contracts.decoder import typed_int
-from contracts.walker_stubs import live_regions
+from contracts.walker_stubs import live_regions, relay_finish
 
 
 def _local(frame, name):
@@ -109,6 +109,7 @@ class ArrayLoop:
             rec = check_element_call(ctx, I, ctx.trace[before:], element_type, path[:-1], path[-1].name, k, lst, strict, "array", site)
             ok = rec is not None and len(elements) == n_before + 1 and elements[-1] is rec.get("result")
             ctx.record("LOOP/array/element-appended", ok, "loop", site)
+            relay_finish(ctx, site)
             raise PathEnd("loop-iteration")
         # (B) after the loop: max(count, 0) complete elements
         n = z3.simplify(z3.If(count >= 0, count, z3.IntVal(0)))
@@ -157,6 +158,7 @@ class ByteSizedLoop:
             if not region.is_obsolete:
                 left1 = typed_int(region.size_max) - S.term(region.size_already)
                 ctx.oblige("LOOP/bytesized/variant-decreases", z3.And(left1 < left0, left1 >= 0), "loop", site, detail="termination: the region's remaining size strictly decreases (an element consumes at least one byte)")
+            relay_finish(ctx, site)
             raise PathEnd("loop-iteration")
         if I.truth(c):
             raise PathEnd("infeasible")
@@ -181,6 +183,8 @@ class StreamLoop:
             yield from I.exec_block(node.body, frame)
         except (_Break, _Return) as e:
             ctx.record("LOOP/stream/never-leaves-the-loop", False, "loop", site, detail=f"{type(e).__name__}")
+            relay_finish(ctx, site)
             raise PathEnd("loop-iteration")
         ctx.ghost["stream_iteration_done"] = True
+        relay_finish(ctx, site)
         raise PathEnd("loop-iteration")
